@@ -8,7 +8,7 @@ use bio::data_structures::interval_tree::{ArrayBackedIntervalTree, IntervalTree}
 use std::fmt::Debug;
 
 pub struct C07;
-const N_DIRECTED: u64 = 14;
+const N_DIRECTED: u64 = 16;
 
 trait Key: Ord + Clone + Copy + Debug + 'static {
     fn from_pair(a: u64, b: u64) -> (Self, Self);
@@ -332,6 +332,83 @@ impl C07 {
         }
     }
 
+    /// more than 2^16 entries in both trees: invariants at checkpoints, sampled queries against the linear scan
+    fn big_trees(&self, ctx: &mut Ctx, rng: &mut Rng, ascending: bool) {
+        let n = 70_000usize;
+        let mut avl: IntervalTree<i64, u64> = IntervalTree::new();
+        let mut arr: ArrayBackedIntervalTree<i64, u64> = ArrayBackedIntervalTree::new();
+        let mut shadow: Vec<(i64, i64, u64)> = Vec::with_capacity(n);
+        let desc = |w: String| Obj::new().s("case", "big-trees").bool("ascending_starts", ascending).u("entries", n as u64).s("what", &w).done();
+        for i in 0..n {
+            let s = if ascending { 3 * i as i64 } else { rng.irange(-1_000_000, 1_000_000) };
+            let e = s + 1 + if rng.chance(1, 50) { rng.irange(0, 200_000) } else { rng.irange(0, 40) };
+            let r = guard(|| {
+                avl.insert(s..e, i as u64);
+                arr.insert(s..e, i as u64);
+            });
+            if let Err(p) = r {
+                ctx.violation(&format!("tree:big:insert-panic:{}", panic_site(&p)), desc(p));
+                return;
+            }
+            shadow.push((s, e, i as u64));
+            if (i + 1) % 10_000 == 0 || i + 1 == n || i + 1 == 65_537 {
+                let inv = avl.verif_invariants();
+                let hb = avl_height_bound(shadow.len());
+                ctx.eval(1);
+                if inv.nodes != shadow.len() || !inv.height_ok || !inv.balanced || !inv.max_ok || !inv.order_ok || inv.height > hb {
+                    ctx.violation("avl:invariant:big-tree", desc(format!("after {} inserts: {:?} (height bound {})", shadow.len(), inv, hb)));
+                    return;
+                }
+            }
+        }
+        ctx.eval(n as u64);
+        arr.index();
+        let mut buf = vec![];
+        for qi in 0..150 {
+            let (qs, qe) = if qi % 3 == 0 {
+                let t = shadow[rng.usize(n)];
+                (t.0, t.1)
+            } else {
+                let s = if ascending { rng.irange(-10, 3 * n as i64 + 10) } else { rng.irange(-1_000_100, 1_000_100) };
+                (s, s + 1 + rng.irange(0, 300))
+            };
+            let exp = exp_after(&shadow, qs, qe);
+            let got = guard(|| {
+                let mut a: Vec<(i64, i64, u64)> = avl.find(qs..qe).map(|e| (e.interval().start, e.interval().end, *e.data())).collect();
+                a.sort();
+                let mut m: Vec<(i64, i64, u64)> = vec![];
+                for mut e in avl.find_mut(qs..qe) {
+                    m.push((e.interval().start, e.interval().end, *e.data()));
+                }
+                m.sort();
+                arr.find_into(qs..qe, &mut buf);
+                let mut b: Vec<(i64, i64, u64)> = buf.iter().map(|e| (e.interval().start, e.interval().end, *e.data())).collect();
+                b.sort();
+                (a, m, b)
+            });
+            ctx.eval(3);
+            match got {
+                Err(p) => {
+                    ctx.violation(&format!("tree:big:find-panic:{}", panic_site(&p)), desc(p));
+                    return;
+                }
+                Ok((a, m, b)) => {
+                    for (name, v) in [("avl:find", &a), ("avl:find_mut", &m), ("array:find_into", &b)] {
+                        if *v != exp {
+                            ctx.violation(
+                                &format!("{}-wrong-multiset", name),
+                                desc(format!("query {}..{}: {} hits, expected {}; first difference {:?} vs {:?}", qs, qe, v.len(), exp.len(), v.iter().find(|x| !exp.contains(x)), exp.iter().find(|x| !v.contains(x)))),
+                            );
+                            return;
+                        }
+                    }
+                }
+            }
+        }
+        ctx.shape(true, &("C07", "big", ascending));
+        ctx.count("trees_with_more_than_65536_entries", 1);
+    }
+
     fn array_sizes(&self, ctx: &mut Ctx, rng: &mut Rng, n: usize) {
         // implicit-tree arithmetic for every size: build, index, query everything
         let ivs = gen_intervals(rng, 6, n);
@@ -495,6 +572,11 @@ impl Monitor for C07 {
                 10 => self.tree_history::<(u32, u32)>(ctx, rng, 2, n / 2),
                 11 => self.tree_history::<(u32, u32)>(ctx, rng, 6, n / 2),
                 12 => self.tree_history::<i64>(ctx, rng, 6, 0),
+                14 | 15 => {
+                    if !ctx.tiny() {
+                        self.big_trees(ctx, rng, g == 14)
+                    }
+                }
                 _ => self.annot_history(ctx, rng),
             }
             return;
